@@ -189,6 +189,14 @@ def local_defs(fi: FuncInfo) -> Dict[str, List[Tuple[str, ast.AST]]]:
     out: Dict[str, List[Tuple[str, ast.AST]]] = {}
     for p in fi.params:
         out.setdefault(p, []).append(("param", None))
+    func_level = set(fi.params)
+    for st in walk_local(fi.node):
+        if isinstance(st, (ast.Assign, ast.AnnAssign, ast.AugAssign)):
+            tg = st.targets if isinstance(st, ast.Assign) else [st.target]
+            for t in tg:
+                func_level |= {x.id for x in ast.walk(t) if isinstance(x, ast.Name)}
+        elif isinstance(st, (ast.For, ast.AsyncFor)):
+            func_level |= {x.id for x in ast.walk(st.target) if isinstance(x, ast.Name)}
     for st in walk_local(fi.node):
         if isinstance(st, ast.Assign):
             for t in st.targets:
@@ -200,7 +208,11 @@ def local_defs(fi: FuncInfo) -> Dict[str, List[Tuple[str, ast.AST]]]:
         elif isinstance(st, (ast.For, ast.AsyncFor)):
             _bind(out, st.target, "iter", st.iter)
         elif isinstance(st, ast.comprehension):
-            _bind(out, st.target, "iter", st.iter)
+            # comprehension variables are scoped to the comprehension: only bind names that are not
+            # also function-level locals / parameters (otherwise the two scopes would be conflated)
+            comp_names = {x.id for x in ast.walk(st.target) if isinstance(x, ast.Name)}
+            if not (comp_names & func_level):
+                _bind(out, st.target, "iter", st.iter)
         elif isinstance(st, (ast.With, ast.AsyncWith)):
             for i in st.items:
                 if i.optional_vars is not None:
